@@ -467,6 +467,15 @@ class PoolWorld:
                     f"task {f.k} spawned while dependency {dk} is {pub.name if pub else None} "
                     f"rc={df.procs[-1].returncode if df and df.procs else None}",
                 )
+            elif df.procs[-1].sigkill or df.procs[-1].sigterm:
+                # the pool signalled that process while it was alive - it only does so for a task that exceeded its
+                # time limit or was cancelled - and such a dependency never counts as finished, whatever its exit status
+                self.flag(
+                    "C11", "spawn_after_dep_stopped",
+                    f"task {f.k} spawned although the pool had stopped its dependency {dk} "
+                    f"({'SIGKILL' if df.procs[-1].sigkill else 'SIGTERM'} sent to the live process; it then exited "
+                    f"{df.procs[-1].returncode} and is published {pub.name})",
+                )
         if f.cancels and any(c[0] in ("SUBMITTED", "RUNNING") for c in f.cancels):
             self.flag("C13", "spawn_after_cancel", f"task {f.k} spawned after an effective cancel")
 
